@@ -228,6 +228,9 @@ def observe(sub):
     if ds is not None:
         d = ds['sum'].data()
         srow = {c: plain(d[c]) for c in ('mass', 'Z', 'N', 'e')}
+        # the totals the object carries itself ("Total mass" / "Total number" of print()), next to the 'sum' row of the table
+        srow['total_mass_attribute'] = plain(sub.composite_mass.value('Da'))
+        srow['total_number_attribute'] = plain(sub.proportion_norm)
     return comps, rows, srow
 
 
@@ -270,6 +273,13 @@ def compare(T, counts, idents, natural, comps, rows, srow, devs, mon, where=''):
         for c in ('mass', 'Z', 'N', 'e'):
             if not close(srow[c], tot[c], RTOL, 1e-9 if c != 'mass' else 1e-12):
                 devs.append(dev('sum-%s-differs' % c, dict(observed=srow[c], expected=tot[c], where=where or 'formula')))
+        if 'total_mass_attribute' in srow:
+            mon['total_attributes_compared'] = mon.get('total_attributes_compared', 0) + 2
+            if not close(srow['total_mass_attribute'], tot['mass'], RTOL, 1e-12):
+                devs.append(dev('total-mass-attribute-differs', dict(observed=srow['total_mass_attribute'], expected=tot['mass'], where=where or 'formula')))
+            ntot = sum(counts.values())
+            if not close(srow['total_number_attribute'], ntot, RTOL, 1e-12):
+                devs.append(dev('total-number-attribute-differs', dict(observed=srow['total_number_attribute'], expected=ntot, where=where or 'formula')))
 
 
 def defined(T, idents, natural):
